@@ -2,7 +2,7 @@
    whose names and datatypes come from well-formed table rows (Model/Wf.v). *)
 From Coq Require Import List Bool Arith ZArith NArith Lia Init.Byte.
 From HL7 Require Import Lib.Str Model.Ec Model.Result Model.Ref Model.Tree Model.Parser Model.Encode Model.Wf.
-From HL7 Require Import Proofs.SplitJoin Proofs.LevelCodec Proofs.RoundTripStr Proofs.RoundTripCore Proofs.RoundTripVT.
+From HL7 Require Import Proofs.SplitJoin Proofs.LevelCodec Proofs.RoundTripStr Proofs.RoundTripCore Proofs.RoundTripVT Proofs.RoundTripZ.
 Import ListNotations.
 Open Scope bs_scope.
 Open Scope res_scope.
@@ -1061,6 +1061,92 @@ Proof.
     destruct i as [|i]; [lia|]. cbn [pred] in Hn.
     destruct (rows_structure_ref_in t sn FIE srows st i row fr Hs Hn Hrr) as [Hm Href].
     eapply Forall2_impl; [|exact Hr]. intros r x [Hpf [Hnm He']]. rewrite Hm, Href in Hpf. auto.
+Qed.
+
+(* ------------------------------------------------------------------ *)
+(* positions                                                            *)
+
+Lemma indexed_repeat_app k (x : str) :
+  indexed (repeat [] k ++ [x]) = indexed (repeat [] k) ++ [(S k, x)].
+Proof. rewrite indexed_app. now rewrite repeat_length. Qed.
+
+Lemma in_indexed_repeat k j (f : str) : In (j, f) (indexed (repeat [] k)) -> f = [].
+Proof. intros H. apply (in_map snd) in H. rewrite indexed_snd in H. cbn [snd] in H. now apply repeat_spec in H. Qed.
+
+(* the children found when all pieces but the last are empty *)
+Lemma Forall2_position {G} (R : nat * str -> list G -> Prop) k x gs :
+  (forall j g, R (j, []) g -> g = []) ->
+  Forall2 R (indexed (repeat [] k ++ [x])) gs ->
+  exists g, R (S k, x) g /\ concat gs = g.
+Proof.
+  intros Hnil H. rewrite indexed_repeat_app in H. apply Forall2_app_inv_l in H.
+  destruct H as [g1 [g2 [H1 [H2 ->]]]]. inversion H2 as [|? g ? g2' Hg Hn]; subst. inversion Hn; subst.
+  exists g. split; [exact Hg|]. rewrite concat_app. cbn [concat]. rewrite app_nil_r.
+  assert (E : concat g1 = []).
+  { clear -H1 Hnil. remember (indexed (repeat [] k)) as l eqn:El.
+    assert (Hl : forall j f, In (j, f) l -> f = []) by (subst l; intros j f; apply in_indexed_repeat).
+    clear El. induction H1 as [|[j f] g l g1 Hg _ IH]; [reflexivity|].
+    cbn [concat]. rewrite IH by (intros j' f' Hi; apply (Hl j'); now right).
+    rewrite (Hl j f (or_introl eq_refl)) in Hg. now rewrite (Hnil j g Hg). }
+  now rewrite E.
+Qed.
+
+Lemma comps_fix_leaf b x : delim_free e x -> leaf (Some b) x = Ok x -> comps_fix e leaf b x.
+Proof.
+  intros Hd Hl. destruct (leaf_splits e x Hd) as [_ [Sc Ss]].
+  unfold comps_fix. rewrite Sc. constructor; [|constructor].
+  unfold subs_fix. rewrite Ss. constructor; [now right|constructor].
+Qed.
+
+Theorem field_position sn srows i row inf b x :
+  length sn = 3 -> upper sn = sn -> streqb sn (unbs "MSH") = false -> valid_z_segment_name sn = false ->
+  slookup sn (t_segments t) = Some (SSeqIn false srows None) ->
+  rows_contiguous sn FIE 1 srows = true ->
+  (forall row, In row srows -> field_row_ok row) ->
+  1 <= i -> nth_error srows (pred i) = Some row ->
+  row_ref t row = Some (SLeaf inf) -> i_dt inf = Some b -> base (Some b) = true ->
+  is_blank x = false -> delim_free e x -> leaf (Some b) x = Ok x ->
+  let text := sn ++ repeat (fsep e) i ++ x in
+  exists s f c sb,
+    parse_segment t TOLERANT e leaf text None = Ok s /\
+    s_children s = [f] /\ f_name f = Some (name_idx sn i) /\ f_children f = [c] /\
+    c_children c = [sb] /\ sc_value sb = x /\
+    enc_segment t e s false = Ok text.
+Proof.
+  intros H3 Hup Hmsh Hz Hl Hc Hrows Hi Hn Hr Hdt Hb Hx Hd Hlf text.
+  destruct i as [|k]; [lia|]. cbn [pred] in Hn.
+  assert (E : text = bjoin (fsep e) (sn :: repeat [] k ++ [x])) by (subst text; now rewrite bjoin_position).
+  assert (Hlen : length (repeat (@nil byte) k ++ [x]) <= length srows).
+  { rewrite app_length, repeat_length. cbn [length].
+    assert (k < length srows) by (apply nth_error_Some; congruence). lia. }
+  destruct (leaf_splits e x Hd) as [Sr [Sc Ss]]. destruct Hd as [Hf0 [Hc0 [Hr0 [Hs0 Hcr0]]]].
+  destruct (seg_table_roundtrip sn srows (repeat [] k ++ [x]) H3 Hup Hmsh Hz Hl Hc Hrows)
+    as [s [gs [Hp [Hch [Hg He]]]]]; auto.
+  - apply no_trail_last, not_blank_ne, Hx.
+  - intros j f Hjf. rewrite indexed_repeat_app in Hjf. apply in_app_or in Hjf. destruct Hjf as [Hjf|[Hjf|[]]].
+    + apply in_indexed_repeat in Hjf. subst f. repeat split; auto.
+    + injection Hjf as <- <-. split; [exact Hf0|]. split; [exact Hcr0|]. right. split; [exact Hx|].
+      exists row, (SLeaf inf). split; [exact Hn|]. split; [exact Hr|]. rewrite Sr. constructor; [|constructor].
+      cbn [rep_text_ok]. rewrite Hdt. left. split; [exact Hb|].
+      apply comps_fix_leaf; auto. repeat split; auto.
+  - destruct (Forall2_position (fun p g => fields_of srows sn (fst p) (snd p) g) k x gs) as [g [Hgx Hcat]]; auto.
+    { intros j g [[_ ->]|[Hbl _]]; [reflexivity|discriminate]. }
+    cbn [fst snd] in Hgx. destruct Hgx as [[-> _]|[_ [row' [fr [fv [Hn' [Hr' HF]]]]]]]; [discriminate|].
+    cbn [pred] in Hn'. rewrite Hn in Hn'. injection Hn' as <-. rewrite Hr in Hr'. injection Hr' as <-.
+    rewrite Sr in HF. inversion HF as [|? f ? g' [Hpf [Hnm Hef]] HF']; subst. inversion HF'; subst.
+    (* the field object is the explicit one *)
+    assert (Hun : upper (name_idx sn (S k)) = name_idx sn (S k)) by now rewrite name_idx_upper, Hup.
+    pose proof (field_ctor_ref (name_idx sn (S k)) (SLeaf inf) _ fv Hun (leaf_structure t inf)) as Hct.
+    cbn [st_dt st_info] in Hct. rewrite Hdt in Hct.
+    rewrite (parse_field_base t e leaf _ _ _ fv _ b _ Hct (sn_is_msh12 sn H3 Hup Hmsh (S k)) Hb (base_not_varies t Hvar b Hb)) in Hpf.
+    2:{ apply comps_fix_leaf; auto. repeat split; auto. }
+    injection Hpf as <-.
+    exists s, (base_field e (name_idx sn (S k)) b (Some (mk_structure (SLeaf inf) None [] [] [] (Some inf))) x),
+           (unnamed_comp e b x), (st_sub b x).
+    rewrite E. split; [exact Hp|]. split; [now rewrite Hch, Hcat|]. split; [reflexivity|].
+    split. { unfold base_field. cbv zeta. now rewrite Sc. }
+    split. { unfold unnamed_comp. cbv zeta. now rewrite Ss. }
+    split; [reflexivity|exact He].
 Qed.
 
 End TableSeg.
